@@ -89,6 +89,9 @@ pub struct GenCfg {
     pub export_all_funcs: bool,
     /// allow two imports with the same (module, field)
     pub dup_import_names: bool,
+    /// `ref.func` targets of code may be declared by an export alone (instead
+    /// of a declared element segment)
+    pub export_declares: bool,
 }
 
 impl GenCfg {
@@ -108,6 +111,7 @@ impl GenCfg {
             big_offsets: true,
             export_all_funcs: false,
             dup_import_names: true,
+            export_declares: false,
         }
     }
     pub fn exec() -> GenCfg {
@@ -126,6 +130,7 @@ impl GenCfg {
             big_offsets: false,
             export_all_funcs: true,
             dup_import_names: false,
+            export_declares: false,
         }
     }
 }
@@ -2044,19 +2049,25 @@ pub fn generate(data: &[u8], cfg: &GenCfg) -> Generated {
         v.dedup();
         v
     };
+    // ... or, one time in three, declare them by exporting them instead
+    let mut force_export: Vec<u32> = Vec::new();
     if !code_refs.is_empty() && reft {
-        env.elems.push(VT::FuncRef);
-        elems.push(ElemG {
-            mode: ElemModeG::Declared,
-            items: ElemItemsG::Funcs(code_refs),
-        });
+        if cfg.export_declares && ch.chance(1, 3) {
+            force_export = code_refs;
+        } else {
+            env.elems.push(VT::FuncRef);
+            elems.push(ElemG {
+                mode: ElemModeG::Declared,
+                items: ElemItemsG::Funcs(code_refs),
+            });
+        }
     }
 
     // 8. exports, start
     let mut exports: Vec<(String, we::ExportKind, u32)> = Vec::new();
     let mut en = 0usize;
     for f in 0..n_funcs_total {
-        if cfg.export_all_funcs && f >= env.n_imp_funcs || ch.chance(1, 3) {
+        if cfg.export_all_funcs && f >= env.n_imp_funcs || ch.chance(1, 3) || force_export.contains(&(f as u32)) {
             exports.push((format!("f{}", en), we::ExportKind::Func, f as u32));
             en += 1;
             if ch.chance(1, 8) {
@@ -2324,7 +2335,10 @@ pub fn generate(data: &[u8], cfg: &GenCfg) -> Generated {
             let mut nm = we::NameMap::new();
             // wat2wasm writes an empty name for every local it has no name for
             let all_empty = prefix == "loc" && ch.chance(1, 8);
+            // entries need not be sorted by index
+            let backwards = ch.chance(1, 8);
             for i in 0..n {
+                let i = if backwards { n - 1 - i } else { i };
                 if all_empty {
                     nm.append(i as u32, "");
                 } else if ch.chance(2, 3) {
@@ -2443,9 +2457,15 @@ pub fn generate(data: &[u8], cfg: &GenCfg) -> Generated {
             l.value("Rust", "1.70");
             lang = Some(l);
         }
+        // one producers section, or the fields spread over two
+        let two_sections = ch.chance(1, 8);
         if language_first {
             if let Some(l) = &lang {
                 ps.field("language", l);
+                if two_sections {
+                    m.section(&ps);
+                    ps = we::ProducersSection::new();
+                }
             }
         }
         ps.field("processed-by", &f);
